@@ -205,7 +205,10 @@ def check_case(case):
                 out.bad(f"round trip z0 <-> u*: grids have {len(z)} and {len(z2)} nodes")
             for name, a, b in zip(("z", "u", "v", "Kx", "Ky", "Kz"), (z, u, v, Kx, Ky, Kz), (z2,) + prof2):
                 a, b = a[:m], b[:m]
-                if not np.abs(a - b).max() <= 1e-10 * max(np.abs(a).max(), 1e-300):
+                # one scale per kind of quantity: a crosswind diffusivity of 1e-297 (wind almost along an axis, MOSTM)
+                # is compared relative to the diffusivity K, not to itself
+                scale = {"z": np.abs(z).max(), "u": U, "v": U}.get(name, np.abs(Kz).max())
+                if not np.abs(a - b).max() <= 1e-10 * max(scale, 1e-300):
                     out.bad(f"round trip z0 <-> u*: {name} differs by {np.abs(a - b).max():.3e}")
                     break
         except Exception as e:
